@@ -66,10 +66,12 @@ var c03Timeouts int32 // calls abandoned by c03Timed
 func c03Timed(f func() wire.Val) (v wire.Val, timedOut bool) {
 	ch := make(chan wire.Val, 1)
 	go func() { ch <- f() }()
+	tm := time.NewTimer(10 * time.Second)
+	defer tm.Stop()
 	select {
 	case v = <-ch:
 		return v, false
-	case <-time.After(10 * time.Second):
+	case <-tm.C:
 		atomic.AddInt32(&c03Timeouts, 1)
 		return wire.Err("timeout"), true
 	}
@@ -341,6 +343,147 @@ func c03Mutations(r *rand.Rand, u c03Tuple, size int64) (out []c03Tuple, labels 
 	return
 }
 
+// c03SizePairs replaces the two sizes of a check tuple by every pair from a set of in-range and
+// out-of-range values, with the given proof or the empty one, and the given hashes or both equal.
+func c03SizePairs(u c03Tuple) (out []c03Tuple) {
+	const p62 = int64(1) << 62
+	vals := []int64{-p62, -2, -1, 0, 1, 2, u.N, u.T - 1, u.T, u.T + 1, p62, p62 + 1}
+	seen := map[int64]bool{}
+	var set []int64
+	for _, x := range vals {
+		if !seen[x] {
+			seen[x] = true
+			set = append(set, x)
+		}
+	}
+	for _, t := range set {
+		for _, n := range set {
+			for _, empty := range []bool{false, true} {
+				if empty && len(u.P) == 0 {
+					continue
+				}
+				for eq := 0; eq < 3; eq++ { // hashes as given, both the root, both the leaf/old hash
+					v := u.clone()
+					v.T, v.N = t, n
+					if empty {
+						v.P = nil
+					}
+					switch eq {
+					case 1:
+						v.H = v.TH
+					case 2:
+						v.TH = v.H
+					}
+					if eq > 0 && u.H == u.TH {
+						continue
+					}
+					out = append(out, v)
+				}
+			}
+		}
+	}
+	return
+}
+
+// c03SizePairStream: verdict on every size pair = the RFC 9162 reference, which is restricted to
+// 0 <= n < t (records) / 1 <= n <= t (trees): everything else is an error, never acceptance, a
+// panic or a hang. A sample (always including equal out-of-range sizes with an empty proof and
+// equal hashes) goes to the model when both sizes are within +-2^62.
+func c03SizePairStream(c *hx.Ctx, tree bool, honest c03Tuple, sub int64, size int, nCases int) {
+	const p62 = int64(1) << 62
+	fn, op, oracle, verdictF, check := "CheckRecord", "check-record", "check-record-size-pairs-iff-rfc9162", c03RecordVerdict, c03CheckRecord
+	if tree {
+		fn, op, oracle, verdictF, check = "CheckTree", "check-tree", "check-tree-size-pairs-iff-rfc9162", c03TreeVerdict, c03CheckTree
+	}
+	pairs := c03SizePairs(honest)
+	// one goroutine and one time limit for the whole batch (a goroutine per tuple costs more than
+	// the calls); if the batch does not finish, fall back to one timed call per tuple to find it
+	vals, batchTimedOut := c03Batch(tree, pairs)
+	pick := map[int]bool{}
+	for i := 0; i < nCases; i++ {
+		pick[c.Rng.Intn(len(pairs))] = true
+	}
+	for i, m := range pairs {
+		vmsg := ""
+		if batchTimedOut {
+			vmsg = verdictF(m)
+			vals[i], _ = check(m)
+		} else {
+			vmsg = c03VerdictOf(tree, m, vals[i])
+		}
+		if vmsg != "" {
+			c.Check(oracle, false, "", m.in(op, sub, size), vmsg)
+		} else {
+			c.Check(oracle, true, "", nil, "")
+		}
+		inRange := m.N >= 1 && m.N <= m.T
+		if !tree {
+			inRange = m.N >= 0 && m.N < m.T
+		}
+		key := "out-of-range"
+		if inRange {
+			key = "in-range"
+		}
+		special := m.T == m.N && m.T <= 0 && len(m.P) == 0 && m.H == m.TH
+		if special {
+			key = "equal-out-of-range-sizes+empty-proof+equal-hashes"
+		}
+		c.Count("size-pair-" + fn + ":" + key)
+		if (pick[i] || (special && nCases > 0)) && m.T <= p62 && m.T >= -p62 && m.N <= p62 && m.N >= -p62 {
+			c.Case(fn, m.val(), vals[i])
+		}
+	}
+}
+
+// c03Batch runs the checker on every tuple in one goroutine under one time limit.
+func c03Batch(tree bool, us []c03Tuple) (vals []wire.Val, timedOut bool) {
+	done := make([]wire.Val, len(us))
+	_, timedOut = c03Timed(func() wire.Val {
+		out := make([]wire.Val, len(us))
+		for i, m := range us {
+			out[i] = c03RawCheck(tree, m)
+		}
+		copy(done, out)
+		return wire.L()
+	})
+	if timedOut {
+		return make([]wire.Val, len(us)), true
+	}
+	return done, false
+}
+
+// c03RawCheck is one checker call under hx.Guard only (the caller provides the time limit).
+func c03RawCheck(tree bool, u c03Tuple) wire.Val {
+	var err error
+	if p, _ := hx.Guard(func() {
+		if tree {
+			err = tlog.CheckTree(u.P, u.T, u.TH, u.N, u.H)
+		} else {
+			err = tlog.CheckRecord(u.P, u.T, u.TH, u.N, u.H)
+		}
+	}); p {
+		return wire.Panic()
+	}
+	return c03ErrVal(err)
+}
+
+// c03VerdictOf is c03RecordVerdict / c03TreeVerdict for a result already obtained.
+func c03VerdictOf(tree bool, u c03Tuple, v wire.Val) string {
+	name, ref, want := "CheckRecord", "2.1.3.2", false
+	if tree {
+		name, ref, want = "CheckTree", "2.1.4.2", gen.RfcVerifyConsistency(u.P, u.T, u.TH, u.N, u.H)
+	} else {
+		want = gen.RfcVerifyInclusion(u.P, u.T, u.TH, u.N, u.H)
+	}
+	if v.String() == wire.Panic().String() {
+		return name + " panics"
+	}
+	if c03Accepted(v) != want {
+		return fmt.Sprintf("%s(len(p)=%d, t=%d, n=%d) accepted=%v, RFC 9162 %s accepts=%v", name, len(u.P), u.T, u.N, c03Accepted(v), ref, want)
+	}
+	return ""
+}
+
 func c03ProveCase(c *hx.Ctx, fn string, l *gen.MemLog, t, n int64, mode int, dropEntry bool) {
 	rr := &gen.RecReader{R: gen.StoreReader(l.Hashes)}
 	hx.Guard(func() {
@@ -428,6 +571,13 @@ func runC03(c *hx.Ctx) {
 					c.Case("rfc.VerifyInclusion", m.val(), boolVal(c03Accepted(v)))
 				}
 			}
+			nc := 0
+			if t%8 == 3 {
+				nc = 1
+			}
+			if n == ns[0] || t%16 == 0 {
+				c03SizePairStream(c, false, honest, sub, size, nc)
+			}
 		}
 		// ---------------- trees
 		ns = []int64{1 + r.Int63n(t)}
@@ -474,9 +624,22 @@ func runC03(c *hx.Ctx) {
 					c.Case("rfc.VerifyConsistency", m.val(), boolVal(c03Accepted(v)))
 				}
 			}
+			nc := 0
+			if t%8 == 5 {
+				nc = 1
+			}
+			if n == ns[0] || t%16 == 0 {
+				c03SizePairStream(c, true, honest, sub, size, nc)
+			}
 		}
 	}
 	// huge trees (oracle only); before the prover stream, which can kill the process (see c03Canary)
+	// the empty-tree hash (and a few other hashes) checked against itself at every size pair
+	for _, h := range []tlog.Hash{gen.RfcEmpty(), {}, rfc.Root(1), rfc.Root(size), gen.RandHash(r)} {
+		self := c03Tuple{T: 0, TH: h, N: 0, H: h}
+		c03SizePairStream(c, false, self, sub, size, 2)
+		c03SizePairStream(c, true, self, sub, size, 2)
+	}
 	proversCrash := c03Canary(c)
 	c03Huge(c)
 	// provers: invalid arguments, failing readers, sizes beyond the log
@@ -594,6 +757,9 @@ func c03CanaryRun(t, n int64) string {
 // violation with the input as replay, and the in-process calls at those sizes are then skipped
 // so that the run survives to report it.
 func c03Canary(c *hx.Ctx) (crashed bool) {
+	if os.Getenv("VERIF_C03_CANARY_CHILD") != "" {
+		return false // never from inside a child
+	}
 	exe, err := os.Executable()
 	if err != nil {
 		c.Sample("canary: os.Executable: " + err.Error())
@@ -612,7 +778,9 @@ func c03Canary(c *hx.Ctx) (crashed bool) {
 			return false
 		}
 		ctx, cancel := context.WithTimeout(context.Background(), 60*time.Second)
-		out, err := exec.CommandContext(ctx, exe, "replay", "C03", file).CombinedOutput()
+		cmd := exec.CommandContext(ctx, exe, "replay", "C03", file)
+		cmd.Env = append(os.Environ(), "VERIF_C03_CANARY_CHILD=1")
+		out, err := cmd.CombinedOutput()
 		cancel()
 		msg := ""
 		if err != nil {
@@ -678,13 +846,34 @@ func c03Huge(c *hx.Ctx) {
 				c.Count("huge-" + kind + ":" + band)
 				c.Nontrivial(fmt.Sprintf("h%s:%d:%d", kind[:1], t, n))
 				// every single-hash corruption is rejected, and the verdict is the RFC verifier's
+				flips := make([]c03Tuple, len(honest.P))
 				for i := range honest.P {
-					m := honest.clone()
-					m.P[i] = c03Flip(m.P[i], r)
-					rmsg := c03MustReject(tree, m)
-					c.Check("huge-"+kind+"-corrupted-hash-rejected", rmsg == "", "", m.in(rop, 0, 0), rmsg)
-					vmsg := verdictF(m)
-					c.Check(iff, vmsg == "", "", m.in(cop, 0, 0), vmsg)
+					flips[i] = honest.clone()
+					flips[i].P[i] = c03Flip(flips[i].P[i], r)
+				}
+				vals, batchTimedOut := c03Batch(tree, flips) // one goroutine and time limit for the batch
+				for i, m := range flips {
+					rmsg, vmsg := "", ""
+					if batchTimedOut { // find the tuple that does not return
+						rmsg, vmsg = c03MustReject(tree, m), verdictF(m)
+					} else {
+						vmsg = c03VerdictOf(tree, m, vals[i])
+						if c03Accepted(vals[i]) {
+							rmsg = fmt.Sprintf("len(p)=%d, t=%d, n=%d: a proof with a corrupted hash is accepted", len(m.P), m.T, m.N)
+						} else if vals[i].String() == wire.Panic().String() {
+							rmsg = "panic"
+						}
+					}
+					if rmsg != "" {
+						c.Check("huge-"+kind+"-corrupted-hash-rejected", false, "", m.in(rop, 0, 0), rmsg)
+					} else {
+						c.Check("huge-"+kind+"-corrupted-hash-rejected", true, "", nil, "")
+					}
+					if vmsg != "" {
+						c.Check(iff, false, "", m.in(cop, 0, 0), vmsg)
+					} else {
+						c.Check(iff, true, "", nil, "")
+					}
 				}
 				if atomic.LoadInt32(&c03Timeouts) >= timeouts0+3 {
 					c.Sample("huge trees: stream abandoned after 3 calls that did not return")
@@ -692,9 +881,19 @@ func c03Huge(c *hx.Ctx) {
 				}
 				if (!tree && n == fullR) || (tree && n == fullT) || r.Intn(8) == 0 {
 					muts, labels := c03Mutations(r, honest, t)
+					mvals, mTimedOut := c03Batch(tree, muts)
 					for i, m := range muts {
-						vmsg := verdictF(m)
-						c.Check(iff, vmsg == "", "", m.in(cop, 0, 0), vmsg)
+						vmsg := ""
+						if mTimedOut {
+							vmsg = verdictF(m)
+						} else {
+							vmsg = c03VerdictOf(tree, m, mvals[i])
+						}
+						if vmsg != "" {
+							c.Check(iff, false, "", m.in(cop, 0, 0), vmsg)
+						} else {
+							c.Check(iff, true, "", nil, "")
+						}
 						c.Count("huge-" + kind + "-mutation:" + labels[i])
 					}
 				}
